@@ -29,6 +29,7 @@ type c04Case struct {
 	StubFault  map[string]string `json:",omitempty"` // method -> err | panic | empty | conferr
 	NilAttrs   bool              `json:",omitempty"` // params.Attrs nil: the real handler dereferences it (panic inside a Handler method)
 	NilHandler bool              `json:",omitempty"`
+	Then       string            `json:",omitempty"` // stub: a further handler AFTER the scripted one that would accept the request: stub | real
 }
 
 // c04Expect maps the first fault that fired to the error kind the statement demands.
@@ -103,6 +104,15 @@ func c04Run(c *ev.Ctx, k c04Case) {
 			stub.script = map[string]string{}
 		}
 		hs = []gensign.Handler{stub}
+		if k.Then != "" && k.StubFault["Name"] == "panic" {
+			stub.accept = false // it rejects; the run names it in the log line of the rejection and crashes there
+		}
+		switch k.Then {
+		case "stub":
+			hs = append(hs, &stubHandler{name: "later-stub", accept: true, script: map[string]string{}, nKeys: 1, nCSRs: 1, log: &e.log, events: &e.events})
+		case "real":
+			hs = append(hs, e.handler)
+		}
 	} else {
 		hs = []gensign.Handler{e.handler}
 	}
@@ -161,6 +171,12 @@ func c04Run(c *ev.Ctx, k c04Case) {
 	if got != want {
 		c.Violation(fmt.Sprintf("C04:wrong-kind:%s:want=%s:got=%s", faultClass(first), want, got),
 			fmt.Sprintf("first fault %q → run returned %s (%v), the statement demands %s", first, got, err, want), k)
+	}
+	if k.Then != "" && want == "Panic" && len(e.ca.Reqs) > 0 {
+		c.Violation("C04:signed-after-handler-panic", fmt.Sprintf("a handler panicked (%s), yet the run went on to a later handler and the CA was asked to sign %d request(s)", first, len(e.ca.Reqs)), k)
+	}
+	if k.Then != "" {
+		return // (the delivery oracles below are written for a single handler)
 	}
 	// certificates in the agent vs what the CA signed
 	issued := map[string]bool{}
@@ -233,7 +249,7 @@ func faultClass(first string) string {
 
 func checkC04(c *ev.Ctx) {
 	defer cleanupScratch()
-	c.Rule("deviation-bounded fault enumeration over the real gensign.Run: default = everything succeeds; deviations = {failure, close, empty, unknown type, truncated, oversized} at every forwarded-agent request index (challenge, private-key add, list, removes, certificate adds) for CA replies of 1..3 certificates and 0/2 certificates of an earlier run; CA error/panic at every call; stub-handler faults in Name/Authenticate/Generate/CSRs/AddCertsToAgent for 1..2 keys x 1..2 requests; nil attributes / nil handler (panic inside the handler loop); agent replies of the wrong message type (the agent client panics inside the handler); after every faulted run of the real handler: no lock of the handler left held and a fault-free run on the SAME handler completes; sequences of three runs that share ONE agent/ssh.AgentKey object (idempotent CA) with one agent fault (thorough: two) at every request index of the first or second run. quick: every single deviation; thorough: every pair. Oracle: error-kind table from the statement keyed by the first fault that fired. non-trivial = run in which a fault fired; distinct by deviation vector")
+	c.Rule("deviation-bounded fault enumeration over the real gensign.Run: default = everything succeeds; deviations = {failure, close, empty, unknown type, truncated, oversized} at every forwarded-agent request index (challenge, private-key add, list, removes, certificate adds) for CA replies of 1..3 certificates and 0/2 certificates of an earlier run; CA error/panic at every call; stub-handler faults in Name/Authenticate/Generate/CSRs/AddCertsToAgent for 1..2 keys x 1..2 requests, and a stub crashing in Name / Authenticate in front of a handler (stub, real) that would accept; nil attributes / nil handler (panic inside the handler loop); agent replies of the wrong message type (the agent client panics inside the handler); after every faulted run of the real handler: no lock of the handler left held and a fault-free run on the SAME handler completes; sequences of three runs that share ONE agent/ssh.AgentKey object (idempotent CA) with one agent fault (thorough: two) at every request index of the first or second run. quick: every single deviation; thorough: every pair. Oracle: error-kind table from the statement keyed by the first fault that fired. non-trivial = run in which a fault fired; distinct by deviation vector")
 	c.Assume("well-formed agent replies of the wrong message type are excluded (x/crypto's client panics on them by design; gensign.Run's recover turns that into a Panic error, which is checked separately below)")
 	if c.ReplayCase != nil {
 		var rk c04ReuseCase
@@ -305,6 +321,12 @@ func checkC04(c *ev.Ctx) {
 					}
 				}
 			}
+		}
+	}
+	// a handler that crashes in Name / Authenticate in front of one that would accept: the crash ends the run
+	for _, then := range []string{"stub", "real"} {
+		for _, sf := range [][2]string{{"Name", "panic"}, {"Authenticate", "panic"}} {
+			cases = append(cases, c04Case{Handler: "stub", NCerts: 1, NKeys: 1, NCSRs: 1, StubFault: map[string]string{sf[0]: sf[1]}, Then: then})
 		}
 	}
 	// sequences of runs sharing one long-lived agent key object (a retrying front end), one fault per sequence
